@@ -1,13 +1,12 @@
 import Verif.Proofs.SvgModel
+import Verif.Model.SvgGuard
 /-!
 # C05 helper lemmas: the rewriting stages of `copyInstruction` preserve the absolute segments
 (one spec state `S` in step with the model state; exact rationals)
 -/
 namespace Verif.Proofs.SvgSound
 open Verif.Spec.SvgPath Verif.Spec.SvgHazard Verif.Model.SvgPath Verif.Proofs.SvgLex Verif.Proofs.SvgGeom
-open Verif.Proofs.SvgModel
-
-def vals (cs : List Coord) : List Rat := cs.map (·.v)
+open Verif.Proofs.SvgModel Verif.Model.SvgGuard
 
 theorem reflPt_eq (x y : Rat) (o : Option Pt) : reflPt x y o = refl (x, y) o := by
   cases o <;> rfl
